@@ -156,11 +156,21 @@ func (fx *FuncCtx) specialCall(st *State, callee *ssa.Function, args []Val, rt t
 			fx.failf("sync.Once.Do in defer/go")
 		}
 		fx.trusted["sync.Once.Do(f): f runs in at most one call of Do; each call is checked for both cases"] = true
+		// ghost state of the Once object: done[ref]; the running call sees it unset and sets it, a skipping call sees it set
+		onceK := HeapKey{"ONCE$done", "(Array Int Bool)"}
+		oref := "0"
+		if args[0].L != nil {
+			oref = args[0].L.Ref
+		}
+		onceCur := fx.heapGet(st.heap, onceK)
 		fc := fx.eng.contractOf(f.Fn)
 		if fc == nil {
 			// no contract: the closure body is executed in place on one path, skipped on the other
 			skip := st.clone()
 			skip.trail = append(skip.trail, "once:skip")
+			skip.assume(sx("select", onceCur, oref))
+			st.assume(not(sx("select", onceCur, oref)))
+			st.onceRun = append(st.onceRun, onceRec{ref: oref, depth: len(st.frames)})
 			b := fx.curInstr.Block()
 			idx := -1
 			for i, x := range b.Instrs {
@@ -341,12 +351,16 @@ func (fx *FuncCtx) havocMonitor(st *State, nt *types.Named, md *MonitorDecl, ref
 	}
 	// objects owned by the monitor: all their fields may have changed
 	for _, on := range md.Owns {
-		tn, ok := nt.Obj().Pkg().Scope().Lookup(on).(*types.TypeName)
+		tn, ok := nt.Obj().Pkg().Scope().Lookup(strings.TrimPrefix(on, "ghost:")).(*types.TypeName)
 		if !ok {
 			fx.failf("monitor %s owns unknown type %s", md.Type, on)
 		}
 		ot := tn.Type().(*types.Named)
+		ghostOnly := strings.HasPrefix(on, "ghost:")
 		for _, c := range fx.mode.comps(ot) {
+			if ghostOnly {
+				break // `owns ghost:T`: only the ghost fields of T objects are guarded by this monitor
+			}
 			p, suf := splitSuffix(c.suffix)
 			k := fx.fieldKey(ot, p, comp{suffix: suf, sort: c.sort, kind: c.kind})
 			fx.keySorts[k.Key] = k.Sort
@@ -1001,6 +1015,9 @@ func (fx *FuncCtx) frameObligations(st *State, env *SpecEnv, pos token.Pos) {
 		}
 		if fx.eng.isMonitorGuardedKey(key) {
 			continue // guarded state of a monitor can change at any time (other goroutines); it is never framed
+		}
+		if strings.HasPrefix(key, "ONCE$") {
+			continue // ghost state of sync.Once objects
 		}
 		skip := false
 		for _, ex := range st.exempt {
